@@ -199,6 +199,9 @@ pub fn run(args: &Args, rep: &mut Report) {
                         rep.count("refused");
                         if ran {
                             rep.violation(&format!("C13/false-admission:{class}"), &format!("handler ran for a non-configured credential (class {class})"), cj());
+                        } else if *class == "raw-high-bytes" && (400..500).contains(&status) {
+                            // bytes that are not UTF-8 make the request itself malformed (C02): the reader may refuse it with 400 before the fang sees it
+                            rep.count("malformed-request-refused-by-reader");
                         } else if status != 401 {
                             rep.violation(&format!("C13/refusal-status:{class}"), &format!("refused with status {status}, not 401 (class {class})"), cj());
                         } else if !challenge.as_deref().map(|c| c.starts_with("Basic")).unwrap_or(false) {
